@@ -142,7 +142,12 @@ func RandomSchema(r *hx.Rand) *SchemaDesc {
 				continue
 			}
 			seen[name] = true
-			t.Fields = append(t.Fields, drawField(name))
+			f := drawField(name)
+			if on == "Query" && f.Type.IsNonNull() && r.Chance(2, 3) {
+				// keep most root fields nullable: a failure then nulls a subtree, not the whole response
+				f.Type = *f.Type.Of
+			}
+			t.Fields = append(t.Fields, f)
 		}
 		s.Types = append(s.Types, t)
 	}
@@ -366,7 +371,19 @@ func (g *docGen) selSet(parent string, depth int) []*Sel {
 				}
 			}
 			if len(reuse) > 0 && (g.fragLeft == 0 || g.r.Chance(1, 2)) {
-				out = append(out, &Sel{Kind: "spread", Name: hx.Pick(g.r, reuse), Dirs: g.dirs()})
+				name := hx.Pick(g.r, reuse)
+				out = append(out, &Sel{Kind: "spread", Name: name, Dirs: g.dirs()})
+				if fr := g.doc.Frag(name); fr != nil && fr.TypeCond == parent && g.r.Chance(1, 2) {
+					// a sibling that selects one of the fragment's composite fields again: the fragment's field
+					// node then merges with different partners in different places
+					for _, fs := range fr.Sels {
+						if fs.Kind == "field" && len(fs.Sels) > 0 && pt != nil && pt.Field(fs.Name) != nil {
+							out = append(out, &Sel{Kind: "field", Name: fs.Name, Alias: fs.Alias, Args: append([]ArgUse{}, fs.Args...),
+								Sels: g.selSet(pt.Field(fs.Name).Type.Base(), depth+1)})
+							break
+						}
+					}
+				}
 			} else if g.fragLeft > 0 {
 				g.fragLeft--
 				name := fmt.Sprintf("F%d", len(g.doc.Frags)+len(g.inProg))
